@@ -189,6 +189,43 @@ def cli_path_sweep(arch, raw, mm):
                     res["failures"].append({"line": line, "fixed": fixed, "class": repr(key), "error": "negative or non-numeric %s" % bad[:3]})
             except BaseException as e:  # noqa  (inspect may call sys.exit)
                 res["failures"].append({"line": line, "fixed": fixed, "class": repr(key), "error": "%s: %s" % (type(e).__name__, str(e)[:200])})
+    # every addressing shape through the load/store tables and their defaults (instructions whose register form the model knows)
+    X86_MEMS = ["(%rax)", "8(%rax)", "-8(%rbp)", "(%rax,%rbx)", "(%rax,%rbx,8)", "16(%rax,%rbx,4)", "8(,%rbx,8)", "sym(%rip)",
+                "sym(,%rax,8)", "sym+16(,%rax,8)", "sym(%rax)", "0x20(%r8,%r9,2)"]
+    A64_MEMS = ["[x1]", "[x1, #8]", "[x1, x2]", "[x1, x2, lsl #3]", "[x1, #16]!", "[x1], #16", "[x1, :lo12:sym]", "[sp, #8]",
+                "[x1, w2, sxtw #2]", "[x1, #-8]"]
+    if isa == "x86":
+        lines = ["vaddpd %s, %%ymm0, %%ymm1" % m for m in X86_MEMS] + ["movq %%rax, %s" % m for m in X86_MEMS] + \
+                ["leaq %s, %%rbx" % m for m in X86_MEMS] + ["addq %s, %%rcx" % m for m in X86_MEMS[6:]] + \
+                ["addq $1, %s" % m for m in X86_MEMS[:4]]
+    else:
+        lines = ["ldr x3, %s" % m for m in A64_MEMS] + ["ldr q1, %s" % m for m in A64_MEMS] + \
+                ["str d0, %s" % m for m in A64_MEMS] + ["ldp x4, x5, %s" % m for m in A64_MEMS[:4]]
+
+    def run_lines(ls, fixed):
+        f = io.StringIO("\n".join(ls) + "\n")
+        f.name = "shapes.s"
+        args = argparse.Namespace(file=f, arch=arch, fixed=fixed, verbose=0, ignore_unknown=True, lines=None,
+                                  lcd_timeout=-1, consider_flag_deps=False, dotpath=None, yaml_out=io.StringIO())
+        oo.inspect(args, output_file=io.StringIO())
+
+    for fixed in (False,):
+        # small files: the dependency search stays single-process and short
+        for c0 in range(0, len(lines), 9):
+            chunk = lines[c0:c0 + 9]
+            res["runs"] += 1
+            try:
+                run_lines(chunk, fixed)
+            except BaseException:  # noqa: find the line(s)
+                for ln in chunk:
+                    try:
+                        run_lines([ln], fixed)
+                    except BaseException as e:  # noqa
+                        res["failures"].append({"line": ln, "fixed": fixed, "class": "addressing-shape",
+                                                "error": "%s: %s" % (type(e).__name__, str(e)[:200])})
+            if len(res["failures"]) > 6:
+                break
+    res["shape_lines"] = len(lines)
     return res
 
 
